@@ -95,7 +95,43 @@ def run_case(case, layout_seed=None, snaps=True):
                 snap = {k: pylib.project_state(v) for k, v in states.items()}
                 snap["d"] = domain_digest(dom)
                 ev.append({"c": "Snap", "snap": snap})
+    if case.get("rename"):
+        rename_part(case, text, tree, objects, states, ev)
     return hist
+
+
+def rename_part(case, text, tree, objects, states, ev):
+    """C18: a second parse of the same text, its action renamed in place, driven through the same calls"""
+    m = case["rename"]
+    try:
+        dom2 = pylib.parse_domain_text(text)
+        ev.append({"c": "ParseDomain", "h": "dr", "tree": tree, "out": {"vocab": pylib.vocab(dom2), "digest": domain_digest(dom2)}})
+        act = dom2.actions["act"]
+        try:
+            act.change_signature(dict(m))
+            out = {"sig": [[v, t.name] for v, t in act.signature.items()], "digest": domain_digest(dom2)}
+        except Exception as e:  # noqa: BLE001
+            out = {"exc": pylib.exc_name(e)}
+        ev.append({"c": "Rename", "d": "dr", "act": "act", "map": m, "h": "d2", "out": out})
+        if "exc" in out:
+            return
+    except Exception as e:  # noqa: BLE001
+        ev.append({"c": "ParseDomain", "h": "dr", "tree": tree, "out": {"exc": pylib.exc_name(e)}})
+        return
+    k = 0
+    for call in case["calls"]:
+        sh = f"s{call['s']}" if isinstance(call["s"], int) else call["s"]
+        if sh not in states or call["mode"] == "ground":
+            continue
+        if call["mode"] == "app":
+            ev.append({"c": "IsApplicable", "d": "d2", "u": "u", "act": "act", "args": call["args"], "s": sh,
+                       "out": pylib.observe_applicable(dom2, "act", call["args"], objects, states[sh])})
+        else:
+            out, _ = pylib.observe_apply(dom2, "act", call["args"], objects, states[sh], allow=call.get("allow", False),
+                                         skip=call.get("skip", False))
+            k += 1
+            ev.append({"c": "Apply", "d": "d2", "u": "u", "act": "act", "args": call["args"], "s": sh, "h": f"r{k}",
+                       "allow": call.get("allow", False), "skip": call.get("skip", False), "out": out})
 
 
 def main():
